@@ -33,8 +33,8 @@ func signaturePostVerificationNecessary(
 		spMeta := spMetadataF()
 		idpMeta := idpMetadataF()
 
-		return ((spMeta == nil || spMeta.SPSSODescriptor == nil || spMeta.SPSSODescriptor.AuthnRequestsSigned == "true") ||
-			(idpMeta == nil || idpMeta.WantAuthnRequestsSigned == "true") ||
+		return ((spMeta == nil || spMeta.SPSSODescriptor == nil || isXSDTrue(spMeta.SPSSODescriptor.AuthnRequestsSigned)) ||
+			(idpMeta == nil || isXSDTrue(idpMeta.WantAuthnRequestsSigned)) ||
 			signaturePostProvided(signatureF)()) &&
 			protocolBinding() == PostBinding
 	}
